@@ -2,6 +2,7 @@ package props
 
 import (
 	"fmt"
+	"go/constant"
 	"go/token"
 	"go/types"
 	"strings"
@@ -146,6 +147,8 @@ func checkC11(p *load.Program, r *kit.Report) {
 	r.Rule("KEY-AGREE", "every storage key written has a reader with the same key shape (format and argument kinds)", 4)
 	r.Rule("CONST-TABLE", "headerDataSerializeSize equals 80 (wire block header) + 32 (work) and is the record size used by getData, loadHistoricalHashHeights and saveMainBranch's byte offset", 2)
 	r.Rule("HEIGHT-LABEL", "labels written while loading (LoadBranch, Reload, loadBranchHashHeights, loadHistoricalHashHeights) equal positional heights", 4)
+	r.Rule("ORDER", "load selects the tip from the branch list in stored order, before re-sorting it for linking (ties of accumulated work are broken by position)", 1)
+	r.Rule("COVER-ALL", "loadHistoricalHashHeights starts at the file that holds the height right below the main branch's lowest in-memory height (every best-chain hash below the in-memory part gets its height back)", 1)
 	r.Rule("MUST-PASS", "saveInvalidHashes writes its key on every successful path (an emptied list replaces the stored one)", 1)
 	r.Rule("MAIN-FILE-SHAPE", "saveMainBranch starts in file lowest/headersPerFile at byte (lowest - file·headersPerFile)·recordSize + 1 (version byte), keeps exactly that prefix of the stored file, rolls over to file+1 every headersPerFile heights; readers (C09) use the same constants", 3)
 	r.Rule("MERGE-SHAPE", "Branch.Save stores previous.headers[:b.offset-previous.offset] ++ b.headers (all in-memory headers) and writes on every successful path; Save runs saveMainBranch, saveBranches, saveInvalidHashes each behind the previous success; saveInvalidHashes always writes; load merges the configured invalid hashes behind a not-found test", 5)
@@ -223,6 +226,7 @@ func checkC11(p *load.Program, r *kit.Report) {
 	}
 
 	checkRecordSize(p, r)
+	checkHistoricalStart(p, r)
 
 	if c := newLabelCtx(p, r, "HEIGHT-LABEL"); c != nil {
 		for _, n := range []string{"LoadBranch", "Branch.Reload", "Repository.loadBranchHashHeights", "Repository.loadHistoricalHashHeights"} {
@@ -261,6 +265,29 @@ func checkC11(p *load.Program, r *kit.Report) {
 			bad = "configured invalid hashes are not merged into the loaded list"
 		}
 		r.Check(bad == "", "MERGE-SHAPE", "load/invalid-list", posOf(p, f.Blocks[0].Instrs[0]), "invalid list = stored list ∪ configured hashes", bad)
+		// the tip is selected from the branches in stored (= creation) order: Longest() breaks
+		// ties of accumulated work by position, and the running repository's order is the index
+		// order; the list is re-sorted by parent height only afterwards, for linking
+		longestF := p.Field(H, "Repository", "longest")
+		badT := "load does not select the tip with Longest()"
+		for _, w := range kit.DirectWrites(f) {
+			if w.Field != longestF {
+				continue
+			}
+			lc := isCallTo(w.Val, H+".Branches.Longest")
+			if lc == nil {
+				continue
+			}
+			badT = ""
+			for _, c := range kit.Calls(f, func(id string) bool {
+				return id == "sort.Sort" || id == "sort.Stable" || id == "sort.Slice" || id == "sort.SliceStable"
+			}) {
+				if kit.Reach(f, kit.After(c), kit.Opts{}).Has(lc) {
+					badT = "the tip is selected after the branch list was re-sorted (" + posOf(p, c) + "): with two branches of equal work the loaded repository reports a different tip than the one that was saved"
+				}
+			}
+		}
+		r.Check(badT == "", "ORDER", "load/tip-before-sort", posOf(p, f.Blocks[0].Instrs[0]), "Longest() runs on the list in stored order, before sort.Sort", badT)
 	}
 }
 
@@ -274,6 +301,63 @@ func uniq(in []string) []string {
 		}
 	}
 	return out
+}
+
+// checkHistoricalStart: loadHistoricalHashHeights registers the best-chain hashes below the main
+// branch's lowest in-memory height h from the header files. The first file it reads must be the one
+// that holds height h-1, i.e. (h-1)/headersPerFile, and nothing is read for h == 0. Decided by
+// evaluating the code between h and the first file read for one representative of each position of
+// h relative to a file boundary.
+func checkHistoricalStart(p *load.Program, r *kit.Report) {
+	f := fn(p, r, "COVER-ALL", H, "Repository.loadHistoricalHashHeights")
+	if f == nil {
+		return
+	}
+	pos := posOf(p, f.Blocks[0].Instrs[0])
+	var h *ssa.Call
+	for _, c := range kit.CallsTo(f, H+".Branch.PrunedLowestHeight") {
+		h, _ = c.(*ssa.Call)
+	}
+	var first *ssa.Call
+	for _, c := range kit.CallsTo(f, H+".headersFilePath") {
+		if first == nil {
+			first, _ = c.(*ssa.Call)
+		}
+	}
+	if h == nil || first == nil {
+		r.Unknown("COVER-ALL", "loadHistoricalHashHeights/first-file", pos, "lowest in-memory height or file path computation not found")
+		return
+	}
+	per := int64(1000)
+	if c, ok := p.All[H].Types.Scope().Lookup("headersPerFile").(*types.Const); ok {
+		if v, isInt := constInt64(c); isInt {
+			per = v
+		}
+	}
+	bad := ""
+	for _, v := range []int64{0, 1, per - 1, per, per + 1, 2*per - 1, 2 * per, 2*per + 1, 50 * per, 50*per + 100} {
+		outs, why := evalSlice(h, v, first, first.Call.Args[0])
+		if why != "" && !(v == 0) {
+			bad = why
+			break
+		}
+		for _, got := range outs {
+			switch {
+			case v == 0 && got != evalReturned:
+				bad = fmt.Sprintf("with nothing below the main branch (lowest height 0) file %d is read", got)
+			case v > 0 && got == evalReturned:
+				bad = fmt.Sprintf("with the main branch starting at height %d no file is read: heights below it are not registered", v)
+			case v > 0 && got != (v-1)/per:
+				bad = fmt.Sprintf("with the main branch starting at height %d the first file read is %d, want %d (the file holding height %d): best-chain hashes between the file start and the main branch are not registered", v, got, (v-1)/per, v-1)
+			}
+		}
+	}
+	r.Check(bad == "", "COVER-ALL", "loadHistoricalHashHeights/first-file", pos, "the first file read holds height lowest-1; nothing is read for lowest == 0", bad)
+}
+
+func constInt64(c *types.Const) (int64, bool) {
+	v, ok := constant.Int64Val(constant.ToInt(c.Val()))
+	return v, ok
 }
 
 func checkRecordSize(p *load.Program, r *kit.Report) {
@@ -403,6 +487,10 @@ func checkBranchSave(p *load.Program, r *kit.Report) {
 }
 
 func checkC12(p *load.Program, r *kit.Report) {
+	importRules(p, r, "C01", "after Load the reported tip must be the heaviest of the branches that could be read", 1,
+		func(o *kit.Obligation) bool {
+			return strings.Contains(o.Construct, "Repository.load") || strings.Contains(o.Construct, "Repository.migrate")
+		}, "WRITERS")
 	r.NotDecided = "the property proper — enumeration of write prefixes and what Load reconstructs from each (crash points are runtime states); per-key atomicity is the property's own assumption. Decided are the ordering and tolerance facts without which some prefix is unloadable."
 	r.Rule("ORDER", "in saveBranches the index write happens after every branch file it names was saved (dominated by the loop exit; no Save reachable after the index write; a Save error returns before the index is written)", 2)
 	r.Rule("WRITERS", "the only storage removal in the headers package is saveMainBranch's removal of the file after the last main-chain file; no branch file is removed; clean never writes the branch index", 2)
